@@ -311,6 +311,14 @@ RESTART:
 		return tmconsensus.HandleProposedHeaderBadBlockHash
 	}
 
+	// The block hash only covers the hashes of the validator sets,
+	// so the sets listed in the header must actually hash to those values.
+	// Otherwise a relayed copy of a valid proposal could carry arbitrary validators.
+	if !ph.Header.ValidatorSet.MatchesHashes(m.hashScheme) ||
+		!ph.Header.NextValidatorSet.MatchesHashes(m.hashScheme) {
+		return tmconsensus.HandleProposedHeaderBadBlockHash
+	}
+
 	// Validate the signature based on the public key the kernel reported.
 	signContent, err := tmconsensus.ProposalSignBytes(ph.Header, ph.Round, ph.Annotations, m.sigScheme)
 	if err != nil {
